@@ -184,8 +184,8 @@ func (s *c12LRU) Keys() []int {
 	return out
 }
 
-// --- SearchCache: keys are (query, options); case variants and surrounding
-// white space of a query are the same key by design. The raw cache key of a
+// --- SearchCache: keys are (query, options); case variants of a query are the
+// same key (C20 relies on it); nothing else about the key function is assumed. The raw cache key of a
 // logical key is learned from the key that appears at its first insertion.
 
 type c12SCKey struct {
@@ -206,8 +206,7 @@ func c12NewSC(sc *cache.SearchCache, pool []c12SCKey, r *rand.Rand) *c12SC {
 	return &c12SC{sc: sc, lru: sc.VerifLRU(), pool: pool, rawToIdx: map[string]int{}, idxToRaw: map[int]string{}, r: r}
 }
 
-// variant returns a spelling of the query that is the same key by design:
-// ASCII case changes and surrounding white space.
+// variant returns a spelling of the query that is the same key: ASCII case changes.
 func (s *c12SC) variant(q string) string {
 	switch s.r.Intn(4) {
 	case 0:
@@ -221,8 +220,7 @@ func (s *c12SC) variant(q string) string {
 		}
 		q = string(b)
 	}
-	ws := []string{"", "", " ", "  ", "\t", "\n", " \t "}
-	return ws[s.r.Intn(len(ws))] + q + ws[s.r.Intn(len(ws))]
+	return q // only letter case may vary (C20); blanks are part of the key
 }
 
 func c12Results(val string, ctr int) []cache.SearchResult {
@@ -1055,7 +1053,7 @@ func c12Manager(ctx *Ctx) {
 			return
 		}
 		for i := 0; i <= over; i++ { // the first `over` queries were discarded (oldest first), the next one is still there
-			ok, bad := hit(sc, fmt.Sprintf("  MANAGER Query %d ", i), i)
+			ok, bad := hit(sc, fmt.Sprintf("MANAGER Query %d", i), i)
 			if ok != (i == over) {
 				viol("eviction-victim", "Get", "after %d distinct puts into capacity %d, query #%d found=%v (expected the %d oldest to be discarded)", wantCap+over, wantCap, i, ok, over)
 				return
